@@ -2,10 +2,14 @@ package main
 
 import (
 	"bytes"
+	"encoding/json"
 	"fmt"
+	"os"
+	"os/exec"
 	"path/filepath"
 	"reflect"
 	"sort"
+	"strings"
 
 	"github.com/protobom/protobom/pkg/sbom"
 	"github.com/protobom/protobom/pkg/writer"
@@ -204,6 +208,41 @@ func runC11(seed int64, n int, dir string, tier string) *Report {
 			rep.NoteCase(op.name+c[:min(len(c), 4000)], len(ob.before.Cells) >= 12, in)
 		}
 	}
+	// ---- race-detector build: the same operations, concurrently, on one shared document ----------
+	exe, _ := os.Executable()
+	stress := filepath.Join(filepath.Dir(exe), "racestress")
+	if _, err := os.Stat(stress); err != nil {
+		rep.Notes = append(rep.Notes, "racestress binary not built (go build -race unavailable?): concurrency stress skipped")
+	} else {
+		rounds, iters := 3, 60
+		if tier == "thorough" {
+			rounds, iters = 20, 300
+		}
+		for r := 0; r < rounds; r++ {
+			cmd := exec.Command(stress, "-mode", "shared", "-seed", fmt.Sprint(seed+int64(r)), "-workers", "16", "-iters", fmt.Sprint(iters))
+			cmd.Env = append(os.Environ(), "GORACE=halt_on_error=0")
+			var so, se bytes.Buffer
+			cmd.Stdout, cmd.Stderr = &so, &se
+			err := cmd.Run()
+			rep.OracleEvals++
+			var res struct {
+				Problems []struct{ What, Detail string }
+				Calls    map[string]int
+			}
+			_ = json.Unmarshal(so.Bytes(), &res)
+			for k, v := range res.Calls {
+				rep.Distribution["concurrent:"+k] += v
+			}
+			if strings.Contains(se.String(), "WARNING: DATA RACE") {
+				rep.Fail(Failure{What: "the race detector reported a data race between read-only operations on a shared document", Detail: firstRace(se.String()), Input: map[string]any{"stress_seed": seed + int64(r), "workers": 16, "iterations": iters}})
+			} else if strings.Contains(se.String(), "fatal error") || (err != nil && len(res.Calls) == 0) {
+				rep.Fail(Failure{What: "the concurrent run on a shared document aborted", Detail: tail(se.String(), 1500), Input: map[string]any{"stress_seed": seed + int64(r)}})
+			}
+			for _, p := range res.Problems {
+				rep.Fail(Failure{What: p.What, Detail: p.Detail, Input: map[string]any{"stress_seed": seed + int64(r)}})
+			}
+		}
+	}
 	rep.CasesFiles = cf.Write(filepath.Join(dir, "cases_C11"))
 	rep.ShardSize = shardSize
 	return rep
@@ -242,6 +281,10 @@ func runC12(seed int64, n int, dir string, tier string) *Report {
 				rep.Fail(Failure{What: "a copy or combined result shares mutable state with an operand", Detail: fmt.Sprintf("%s: shared: %v", op.name, sh), Input: in})
 			}
 			c := fmt.Sprintf("(HSeparate %s %s %s)", ob.after.Coq(), coqVals(ob.opsAfter), coqVals(ob.results))
+			if strings.HasSuffix(op.name, ".Copy") {
+				// against the model's deep copy
+				c = fmt.Sprintf("(HCopy %s %s %s %s %s)", ob.before.Coq(), heapview.CoqVal(ob.opsBefore[0]), ob.after.Coq(), heapview.CoqVal(ob.opsAfter[0]), heapview.CoqVal(ob.results[0]))
+			}
 			if len(cf.Items) < 6*n {
 				cf.Add(c)
 			}
